@@ -211,7 +211,7 @@ pub fn explore_source(name: &str, original: &str, pairs: bool, acc: &mut Acc) {
             try_layout(layout(&texts, &|k| if k == i { *g } else if k == 0 || k == n { "" } else { " " }, ""), "1-gap deviations", acc);
         }
     }
-    if pairs && n <= 60 {
+    if (pairs && n <= 60) || n <= 36 {
         for i in 0..=n {
             for j in i + 1..=n {
                 for gi in GAPS.iter() {
@@ -303,7 +303,7 @@ pub fn run(ctx: &Ctx) -> Outcome {
     let n = acc.get("re-layouts compared");
     out.cov("evaluations", json!(n));
     out.cov("distinct_nontrivial", json!(n.saturating_sub(acc.get("original layouts"))));
-    out.cov("rule", json!(format!("for each of {} base sources (the repository's grammar files incl. the should-fail corpus and parser.kiki, conflict grammars, texts with parse errors and with every kind of validation error, samples of G(2,2,3,2)): the original layout, all uniform layouts over the gap alphabet {:?} (with and without a final comment lacking a newline) and every layout that differs from the canonical single-space layout in one gap{}; a candidate counts only if R-lex yields the same token sequence; non-trivial = differs from the canonical layout", bases.len(), GAPS, if pairs { " or in two gaps (sources of at most 60 tokens)" } else { "" })));
+    out.cov("rule", json!(format!("for each of {} base sources (the repository's grammar files incl. the should-fail corpus and parser.kiki, conflict grammars, texts with parse errors and with every kind of validation error, samples of G(2,2,3,2)): the original layout, all uniform layouts over the gap alphabet {:?} (with and without a final comment lacking a newline) and every layout that differs from the canonical single-space layout in one gap{}; a candidate counts only if R-lex yields the same token sequence; non-trivial = differs from the canonical layout", bases.len(), GAPS, if pairs { " or in two gaps (sources of at most 60 tokens)" } else { " or in two gaps (sources of at most 36 tokens)" })));
     out.cov("exhaustive", json!(true));
     out.cov("histogram", json!(acc.counters));
     out.cov("samples", json!([{"canonical": "start A struct A terminal Tok { }", "relayout": "start// a\rb $ {\nA struct A terminal Tok { }"}]));
